@@ -623,9 +623,12 @@ impl<K: KeyT> World<K> {
                     Obj::Rodeo(r) => {
                         r.clear();
                         self.slots[si].shadow.clear();
-                        if self.slots[si].obj.mem() != before {
-                            self.fail("C13", "clear-changed-usage", "clear changed the memory usage".into());
+                        if self.slots[si].born.is_empty() {
+                            self.slots[si].born = "C13";
                         }
+                        // (whether clear keeps or releases blocks is not part of any property: the
+                        // model comparison reports a change of behaviour, the oracle does not)
+                        let _ = before;
                         "ok".into()
                     }
                     _ => "bad-op".into(),
